@@ -126,14 +126,10 @@ Theorem tvd_symmetric_and_zero : forall pq l,
 Proof. intros. split; [apply tvd_sym|apply tvd_same]. Qed.
 Print Assumptions tvd_symmetric_and_zero.
 
-(* classical_renyi_entropy, alpha = 0: log(len p) is the Hartley entropy only on full support *)
-Theorem renyi_alpha0_partial : forall p, (forall x, In x p -> x <> 0%R) -> renyi0_branch p = hartley p.
-Proof. exact renyi_alpha0_branch_full_support. Qed.
-Print Assumptions renyi_alpha0_partial.
-Theorem renyi_alpha0_refuted :
-  exists p, rsum p = 1%R /\ (forall x, In x p -> (0 <= x <= 1)%R) /\ renyi0_branch p <> hartley p.
-Proof. exact renyi_alpha0_branch_refuted. Qed.
-Print Assumptions renyi_alpha0_refuted.
+(* classical_renyi_entropy, alpha = 0: log(count_nonzero p) is the Hartley entropy log |supp p| *)
+Theorem renyi_alpha0_ok : forall p, renyi0_branch p = hartley p.
+Proof. exact renyi_alpha0_branch_ok. Qed.
+Print Assumptions renyi_alpha0_ok.
 
 (* Tsallis: d/da sum p^a at a=1 is sum p ln p, so (1 - sum p^a)/(a-1) -> -sum p ln p (nats) *)
 Theorem tsallis_limit : forall p, (forall x, In x p -> (0 < x)%R) -> is_derive (powsum p) 1%R (plnp p).
